@@ -47,3 +47,16 @@ Theorem C07_index_plan_is_the_code :
   routine_matches c_omp4_rows c_omp4_row c_omp4_col_rect c_omp4_col_end c_omp4_slot_triu_off c_omp4_slot_rect /\
   routine_matches c_omp5_rows c_omp5_row c_omp5_col_rect c_omp5_col_end c_omp5_slot_triu_off c_omp5_slot_rect.
 Proof. split; [exact tie_prepare_cb|exact omp_routines_match]. Qed.
+
+(* the kernels called from the parallel loops (and serially for every pair) never write the
+   settings struct they share: regenerated table of writers, see CReent.v *)
+From DV Require Import CReent.
+From DVGen Require Import Gen_creent.
+Theorem C07_kernels_leave_shared_settings_untouched :
+  (forall f, In f settings_writers -> f = "dtw_settings_set_psi"%string) /\
+  settings_writer_callers = [] /\
+  (forall l, In l omp_loops -> ~ In (ol_function l) settings_writers).
+Proof.
+  split; [exact only_the_setter_writes_settings|]. split; [exact nothing_calls_the_setter|].
+  exact parallel_routines_do_not_write_settings.
+Qed.
